@@ -36,6 +36,11 @@ Checks (one small `def` each, so that each has its own soundness lemma in `Proof
 * K12 (C04)     the count read INSIDE a borrow callback (`withCb`, all five APIs; scripts without `replaceWith` / `swapWith`)
                 is the number of owners before the call plus the clones the callback has made so far: the borrow itself
                 is not counted
+* K14 (C01)     when an op frees a block on which only initialised views stood before the op, every value the block
+                stored is destroyed by that same op (unless the op hands the value to the caller)
+* K15 (C06)     an iterator-driven constructor fed an HONEST script (no panic, true `len()`, one true `size_hint()`
+                answer: exact, lower < upper, or unknown upper bound) does not panic, unless the length is impossible
+                (the layout computation overflows)
 * K13 (C03/C10) `ThinArc::with_arc_mut`: `Arc::get_mut` on the lent Arc is granted iff the allocation the transient
                 refers to AT THAT MOMENT (after the clones / replacements / swaps the callback has made) has exactly one
                 owner; afterwards every slot stands on the block the script left it on — in particular the lending
@@ -259,6 +264,8 @@ inductive Fail
   | cbCountSplit (tag : String) (slot : Nat)                           -- K12
   | cbMut (tag : String) (slot : Nat) (granted : Bool) (blk owners : Nat)   -- K13
   | cbPosition (tag : String) (slot want : Nat) (got : Option Nat)     -- K13
+  | lastNoDrop (tag : String) (blk id : Nat)                           -- K14
+  | honestPanic (tag : String) (slot : Nat)                            -- K15
 deriving Repr, DecidableEq, Inhabited
 
 def Fail.tag : Fail → String
@@ -267,7 +274,8 @@ def Fail.tag : Fail → String
   | .dataAddrDiffer t .. | .unionChanged t .. | .cowGone t .. | .cowMoved t .. | .cowKept t .. | .cowVisible t ..
   | .cowLost t .. | .unwrapEvents t .. | .unwrapOwners t .. | .thinChanged t .. | .thinRefusal t ..
   | .uninitDrop t .. | .assumeInitChanged t .. | .ctorGone t .. | .ctorShared t .. | .ctorContents t ..
-  | .ctorEvents t .. | .cbCount t .. | .cbCountSplit t .. | .cbMut t .. | .cbPosition t .. => t
+  | .ctorEvents t .. | .cbCount t .. | .cbCountSplit t .. | .cbMut t .. | .cbPosition t ..
+  | .lastNoDrop t .. | .honestPanic t .. => t
 
 def Fail.msg : Fail → String
   | .countMismatch _ i b n k => s!"slot s{i} reports count {n} but {k} owning handle(s) refer to b{b}"
@@ -301,6 +309,8 @@ def Fail.msg : Fail → String
   | .cbCountSplit _ i => s!"the count accessors read inside the callback lent by s{i} disagree"
   | .cbMut _ i g b k => s!"get_mut inside the with_arc_mut callback on s{i} answered {if g then "some" else "none"} while {k} owning handle(s) refer to b{b}"
   | .cbPosition _ i b got => s!"after with_arc_mut, slot s{i} should stand on b{b} but {match got with | some g => s!"stands on b{g}" | none => "is gone"}"
+  | .lastNoDrop _ b id => s!"block b{b} was released by its last owner (all of them initialised views) but value {id}, which it stored, was not destroyed"
+  | .honestPanic _ i => s!"the iterator-driven constructor for s{i} panicked although the iterator was honest (and the length is allocatable)"
 
 /-! ### K1 -/
 
@@ -754,6 +764,76 @@ def checkK13 (pre : List (Nat × SlotObs)) (op : Op) (o : Obs) : List Fail :=
     else []
   | _ => []
 
+/-! ### K14 (C01): the destructor runs at the moment the last owning handle is released
+
+When the events of an op free a block `b` on which, in the probe before the op, at least one slot stood and every slot
+was an initialised view, every value identity the (first of the) views showed — header and elements — has a `drop`
+event in this same op; unless it was destroyed earlier (the monitor's `dropped` set) or the op hands the value to the
+caller (`try_unwrap` granted, `into_inner`, `unwrap_or_clone` without a `Clone`).  Blocks allocated and freed inside one
+op are not in the probe before the op: out of scope.  Only COUNTS of events are used. -/
+
+/-- the op hands the value out instead of destroying it -/
+def movesOut (op : Op) (o : Obs) : Bool :=
+  match op with
+  | .tryUnwrap _ => o.verdict == some true
+  | .intoInner _ => true
+  | .unwrapOrClone _ _ => o.evs.countP isCloneEv == 0
+  | _ => false
+
+/-- the destructor event of identity `id` -/
+def isDropId (id : Nat) : Event → Bool
+  | .drop i => i == id
+  | _ => false
+
+/-- one slot of the probe before the op: if it is the first view on its block, the block is freed by the op and all
+views on it were initialised, every identity it showed is destroyed by the op -/
+def k14One (dropped : List Nat) (pre : List (Nat × SlotObs)) (evs : List Event) (e : Nat × SlotObs) : List Fail :=
+  if evs.countP (isDeallocEv e.2.blk) != 0 &&
+      (pre.find? (fun e' => e'.2.blk == e.2.blk)).map (·.1) == some e.1 &&
+      pre.all (fun e' => e'.2.blk != e.2.blk || e'.2.ty.elemsInit) then
+    ((e.2.vals.map Dig.ids).getD []).filterMap fun id =>
+      if evs.countP (isDropId id) != 0 || dropped.contains id then none
+      else some (.lastNoDrop "C01" e.2.blk id)
+  else []
+
+def checkK14 (st : MSt) (op : Op) (o : Obs) : List Fail :=
+  if movesOut op o then [] else st.pre.flatMap (k14One st.dropped st.pre o.evs)
+
+/-! ### K15 (C06): an honest iterator is accepted, in every `size_hint` regime (exact, lower < upper, unknown)
+
+A script is HONEST when no `next()` panics, every `len()` answer is the number of items, all `size_hint()` answers are
+the same pair `(lo, up)` (an answer that changes between calls is a lie) and it is true: `lo ≤ n` and (`up` unknown or
+`n ≤ up`).  An iterator-driven constructor fed an honest script into a free slot does not panic — except for the refusal
+of an impossible length: the layout computation `allocLayoutHeaderSlice` for the item count overflows. -/
+
+def honestScript (sc : IterScript) : Bool :=
+  sc.panicAt.isNone && sc.lens.all (· == sc.items.length) &&
+  (match sc.hints with
+   | [] => true
+   | x :: r => r.all (· == x) && decide (x.1 ≤ sc.items.length) &&
+       (match x.2 with
+        | none => true
+        | some u => decide (sc.items.length ≤ u)))
+
+/-- the layout of the header type the constructor allocates for -/
+def iterHdrLay : IterCtor → LY.Layout
+  | .hsFromIter => trackedLay
+  | .thinFromIter => Ty.hwl.hdrLay
+  | .fromIter | .uniqueFromIter => LY.unitLayout
+
+def checkK15 (pre : List (Nat × SlotObs)) (op : Op) (o : Obs) : List Fail :=
+  match op with
+  | .iterCtor dst w _ sc =>
+    if o.badOp then [] else
+    match lookupO pre dst with
+    | some _ => []
+    | none =>
+      if honestScript sc && o.panicked &&
+          (LY.allocLayoutHeaderSlice bits (iterHdrLay w) trackedLay sc.items.length).isSome then
+        [.honestPanic "C06" dst]
+      else []
+  | _ => []
+
 /-! ### one observation -/
 
 /-- the op-independent checks K1 K2 K3 K5 (also run for driver-level ops that are not an `Op`) -/
@@ -768,7 +848,7 @@ def checkOp (st : MSt) (op : Op) (o : Obs) : MSt × List Fail :=
   let r := checkObsOnly st o
   (r.1, r.2 ++ checkK4 st.pre op o ++ checkK6 st.pre op o ++ checkK7 st.pre op o ++ checkK8 st.pre op o ++
     checkK9 st.pre op o ++ checkK10 st.pre op o ++ checkK11 st.pre op o ++ checkK12 st.pre op o ++
-    checkK13 st.pre op o)
+    checkK13 st.pre op o ++ checkK14 st op o ++ checkK15 st.pre op o)
 
 def checkAll (st : MSt) : List (Op × Obs) → List Fail
   | [] => []
